@@ -60,18 +60,25 @@ fn find<'a>(
         })
 }
 
-fn count_input_type(owner: &dyn HasVariables) -> usize {
+/// Returns the number of inputs, including the edge-detecting inputs
+/// (`R_EDGE` / `F_EDGE`), which are kept apart from the other variables.
+fn count_input_type(owner: &FunctionBlockDeclaration) -> usize {
     owner
         .variables()
         .iter()
         .filter(|item| item.var_type == VariableType::Input)
         .count()
+        + owner.edge_variables.len()
 }
 
-/// Returns the first VAR_INPUT or VAR_INOUT variable matching the name
-/// or `None` if the owner does not contain a matching variable.
-fn find_input_type<'a>(owner: &'a dyn HasVariables, name: &'a Id) -> Option<&'a VarDecl> {
-    find(owner, name, &[VariableType::Input, VariableType::InOut])
+/// Returns whether the owner has a VAR_INPUT (edge-detecting or not) or
+/// VAR_INOUT variable matching the name.
+fn has_input_type(owner: &FunctionBlockDeclaration, name: &Id) -> bool {
+    find(owner, name, &[VariableType::Input, VariableType::InOut]).is_some()
+        || owner
+            .edge_variables
+            .iter()
+            .any(|item| item.identifier.eq(name))
 }
 
 /// Returns the first VAR_OUTPUT variable matching the name
@@ -152,9 +159,9 @@ impl<'a> RuleFunctionBlockUse<'a> {
         if !formal.is_empty() {
             // TODO check the types.
             for name in formal {
-                match find_input_type(function_block, &name.name) {
-                    Some(_) => {}
-                    None => {
+                match has_input_type(function_block, &name.name) {
+                    true => {}
+                    false => {
                         return Err(Diagnostic::problem(
                             Problem::FunctionInvocationMissingInput,
                             Label::span(fb_call.span(), "Function block invocation"),
